@@ -50,7 +50,7 @@ def gen_definition(rng, fam):
     names = ["t%02d" % i for i in range(n)]
     wf = {"version": 1.0}
     vars_ = [{"x": 0}, {"y": "y0"}, {"lst": [1, 2, 3][: rng.randint(0, 3)] if rng.random() < 0.3 else [1, 2, 3]},
-             {"n": 0}, {"d": 1}]
+             {"n": 0}, {"d": 1}, {"neg": -1}]
     if rng.random() < fam["p_dictval"]:
         vars_.append({"dv": {"a": 1}})
     else:
@@ -130,7 +130,7 @@ def gen_definition(rng, fam):
         # with items
         if rng.random() < fam["p_items"]:
             form = rng.random()
-            conc = rng.choice([None, None, 1, 2, 3, L.ctx("d"), 0])
+            conc = rng.choice([None, None, 1, 2, 3, L.ctx("d"), 0, L.ctx("d"), L.ctx("neg"), L.ctx("n")])
             if form < 0.4:
                 w = {"items": maybe_bad(L.ctx("lst"))}
                 spec["input"] = {"m": L.e("item()")}
@@ -171,8 +171,12 @@ def gen_definition(rng, fam):
                         var = "w_%s_%d" % (t, len(nxt))
                         writers.append(var)
                     else:
-                        var = rng.choice(["x", "y", "z", "dv"])
-                    pubs.append({var: maybe_bad(pub_value(t))})
+                        var = rng.choice(["x", "y", "z", "dv", "d"])
+                    if var == "d":
+                        # the variable that concurrency / delay / retry count expressions read, changed on the way
+                        pubs.append({var: rng.choice([2, 3, 0])})
+                    else:
+                        pubs.append({var: maybe_bad(pub_value(t))})
                 # one-key dicts must be unique
                 seen = set()
                 pubs = [p for p in pubs if not (list(p)[0] in seen or seen.add(list(p)[0]))]
@@ -203,6 +207,14 @@ def gen_definition(rng, fam):
                     tr["do"] = do
             elif "publish" not in tr and "when" not in tr:
                 continue
+            nxt.append(tr)
+        # the clean-up idiom: on failure run a clean-up task beside the fail command
+        if later and rng.random() < fam.get("p_cleanup_fail", 0.05):
+            d = rng.choice(later)
+            tr = {"when": L.e("failed()"), "do": [d, "fail"]}
+            if rng.random() < 0.4 and not fam.get("unique_writers"):
+                tr["publish"] = [{"z": token(t)}]
+            inbound[d].add(t)
             nxt.append(tr)
         if nxt:
             spec["next"] = nxt
@@ -267,8 +279,9 @@ class Oracle(object):
             st = ("timeout", "abandoned", "canceled")[provider.crc(self.seed, key, attempt, "k") % 3]
         else:
             st = "succeeded"
-        rv = provider.crc(self.seed, key, attempt, "r") % 6
-        res = ["a", "b", "a", 1, {"k": "v"}, None][rv]
+        rv = provider.crc(self.seed, key, attempt, "r") % 11
+        # falsy results (0, false, "", [], {}) are results like any other: conditions on result() must see them
+        res = ["a", "b", "a", 1, {"k": "v"}, None, "a", 0, False, "", []][rv]
         return st, res
 
 
